@@ -99,6 +99,7 @@ func checkC02(c *Check) {
 	L := c.L
 	c.Expl = "Structural clauses of 'every accepted program is compiled completely', decided cell-wise by evaluating the checker's and the generator's operator tables abstractly (engine E2: partial evaluation of the Visit* methods over operator constants and operand type classes, with a typed model of ddptypes' predicates and of the llir builder): every cell the checker admits has a lowering that does not reach c.err/panic (R2.1), leaves the IR class the checker's result type maps to (R2.2) and builds only well-typed IR (R2.3); every operator/node enum is covered by the String(), checker and generator switches (R2.4); every runtime symbol the generator declares is defined by the C runtime, libc/libm or the generator itself (R2.5). Bounds: the type classes listed in coverage.classes; user-defined overloads lower to calls and are out of scope. Not decided: assignment/argument/return contexts, struct and generic lowering, 'LLVM accepts the module' as a whole."
 	checkC02Phis(c, L)
+	checkC02Returns(c, L)
 	t := computeCheckerTables(L, c.Tier)
 	cells := computeAdmittedGenCells(L, t)
 	r1 := c.Rule("R2.1", "every checker-admitted operator cell has a lowering (no c.err / panic)", 100)
@@ -259,5 +260,104 @@ func checkC02Phis(c *Check, L *Loaded) {
 			continue
 		}
 		r.Decide(len(bad) == 0, key, token.NoPos, "phi incoming blocks are the blocks the operands' code ends in", strings.Join(uniq(bad), "; "))
+	}
+}
+
+// R2.8: the terminator of a return statement agrees with the function's IR signature. A function whose declared result
+// type is primitive returns the value in a register (`ret <value>` of that class); every other function has result
+// `void` and an out-pointer, so its return statements must store into the out-pointer and end in `ret void` - also when
+// a primitive value is boxed into a Variable on the way. Decided by evaluating VisitReturnStmt (engine E2) for every
+// pair (type of the returned value, declared result type ∈ {the same type, Variable}).
+func checkC02Returns(c *Check, L *Loaded) {
+	r := c.Rule("R2.8", "return statements end in a terminator that matches the function's IR result (register for primitive results, out-pointer and ret void otherwise)", 12)
+	fi := L.Fn("src/compiler.(*compiler).VisitReturnStmt")
+	if fi == nil {
+		r.Und("compiler.(*compiler).VisitReturnStmt", token.NoPos, "function not found")
+		return
+	}
+	valTypes := []*DT{{Kind: "ZAHL"}, {Kind: "KOMMAZAHL"}, {Kind: "BYTE"}, {Kind: "WAHRHEITSWERT"}, {Kind: "BUCHSTABE"}, {Kind: "TEXT"}, {Kind: "LIST", Elem: &DT{Kind: "ZAHL"}}, {Kind: "VARIABLE"}}
+	for _, vt := range valTypes {
+		rets := []*DT{vt}
+		if vt.Kind != "VARIABLE" {
+			rets = append(rets, &DT{Kind: "VARIABLE"})
+		}
+		for _, rt := range rets {
+			for _, temp := range []bool{false, true} {
+				in, mk := newGeneratorInterp(L)
+				key := fmt.Sprintf("compiler.(*compiler).VisitReturnStmt|value %s, declared result %s, temporary=%v", toGen(vt), toGen(rt), temp)
+				var bad []string
+				runs := 0
+				retparam := &IRVal{Op: "retparam", Class: "ptr"}
+				in.RunAll(64, func() {
+					cobj := mk()
+					fobj := newObj("ir.Func")
+					fobj.set("Params", SliceV{Elems: []Val{retparam}})
+					cobj.set("cf", fobj)
+					cobj.set("cfscp", newObj("scope"))
+					n := newObj("ast.ReturnStmt")
+					v := exprNode("Value", vt)
+					v.set("temp", boolV(temp))
+					n.set("Value", v)
+					fd := newObj("ast.FuncDecl")
+					fd.set("ReturnType", TypeV{rt})
+					n.set("Func", fd)
+					in.CallFunc(fi, cobj, []Val{n})
+					for _, e := range in.Events {
+						if e.Kind == "cerr" || e.Kind == "panic" {
+							bad = append(bad, e.Kind+": "+e.Msg)
+							return
+						}
+					}
+					runs++
+					nret := 0
+					var retVal Val
+					storesOut := false
+					for _, e := range in.Events {
+						switch e.Kind {
+						case "term:NewRet":
+							nret++
+							if len(e.Data) >= 2 {
+								retVal = e.Data[1]
+							}
+						case "store", "deepCopy":
+							for _, d := range e.Data {
+								if iv, ok := d.(*IRVal); ok {
+									for iv.Op == "bitcast" && len(iv.Args) == 1 {
+										iv = iv.Args[0]
+									}
+									if iv == retparam {
+										storesOut = true
+									}
+								}
+							}
+						}
+					}
+					if nret != 1 {
+						bad = append(bad, fmt.Sprintf("%d return terminators are emitted", nret))
+						return
+					}
+					inRegister := toGen(rt).irClass() != "ptr"
+					iv, isVal := retVal.(*IRVal)
+					switch {
+					case inRegister && !isVal:
+						bad = append(bad, "the function returns its result in a register but the statement ends in `ret void`")
+					case inRegister && isVal && iv.Class != "?" && iv.Class != toGen(rt).irClass() && !(iv.Op == "operand" && iv.Class == toGen(vt).irClass() && toGen(vt).irClass() == toGen(rt).irClass()):
+						bad = append(bad, fmt.Sprintf("`ret` of a %s value in a function whose result is %s", iv.Class, toGen(rt).irClass()))
+					case !inRegister && isVal:
+						bad = append(bad, fmt.Sprintf("the function returns its result through the out-pointer (IR result void) but the statement ends in `ret` with a %s value: LLVM rejects the module", iv.Class))
+					case !inRegister && !storesOut:
+						bad = append(bad, "the result is never stored into the out-pointer")
+					}
+				})
+				switch {
+				case runs == 0 && len(bad) == 0:
+					r.Und(key, token.NoPos, "the return statement could not be evaluated")
+				case len(bad) > 0:
+					r.Bad(key, fi.Decl.Pos(), strings.Join(uniq(bad), "; "))
+				default:
+					r.OK(key, fi.Decl.Pos(), fmt.Sprintf("%d evaluation(s): terminator and result passing agree with the signature", runs))
+				}
+			}
+		}
 	}
 }
